@@ -16,7 +16,7 @@ import types as _types
 from ..minieval import Evaluator, Host, Refused, Sym, UserFunc
 from ..model import Repo
 from ..report import Report
-from ..util import AnalysisError, call_name, chain, norm, short, walk_body
+from ..util import AnalysisError, call_name, chain, norm, resolve_local, short, walk_body
 
 KINDS = {
     "eq": ("_make__eq__", "_generate__eq__"),
@@ -298,11 +298,19 @@ def one_list_rule(repo: Repo, rep: Report, rid: str) -> None:
     same = {names.get("_generate__eq__"), names.get("_generate__hash__"), names.get("_generate__bool__")}
     rep.check(len(same) == 1 and None not in same, rid, f"{fi.key}:field-names", f"eq/hash/bool all generated from '{next(iter(same))}'",
               f"__eq__/__hash__/__bool__ are generated from different field lists: {names}", fi.loc())
-    src = [s for s in walk_body(fi.node.body) if isinstance(s, ast.Assign) and norm(s.targets[0]) == "field_names"]
-    rep.check(bool(src) and norm(src[-1].value) == "lookup.keys()", rid, f"{fi.key}:field-names-source", "field_names = lookup.keys() (anonymous members folded)",
-              f"field_names is '{norm(src[-1].value) if src else None}'", fi.loc())
+    from .c18 import update_fields_roles
+
+    roles = update_fields_roles(fi)
+    shared = next(iter(same)) if len(same) == 1 else None
+    src_expr = shared
+    if shared and shared.isidentifier():
+        defs = [s for s in walk_body(fi.node.body) if isinstance(s, ast.Assign) and norm(s.targets[0]) == shared]
+        src_expr = norm(defs[-1].value) if defs else None
+    rep.check(roles["ok"] and src_expr == f"{roles['folded']}.keys()", rid, f"{fi.key}:field-names-source",
+              "eq/hash/bool take the keys of the folded name table (anonymous members folded)", f"field_names is '{src_expr}' ({roles['why'] or 'not the keys of the folded table'})", fi.loc())
     inits = {names.get("_generate_structure__init__"), names.get("_generate_union__init__")}
-    rep.check(inits == {"raw_lookup.values()"}, rid, f"{fi.key}:init-fields", "both __init__ generators take raw_lookup.values()", f"__init__ generators take {inits}", fi.loc())
+    rep.check(roles["ok"] and inits == {f"{roles['raw']}.values()"}, rid, f"{fi.key}:init-fields", "both __init__ generators take the values of the raw name table",
+              f"__init__ generators take {inits}", fi.loc())
     targets = {k: v[0][0] for k, v in calls.items()}
     want = {"_generate__eq__": "classdict['__eq__']", "_generate__hash__": "classdict['__hash__']", "_generate__bool__": "classdict['__bool__']",
             "_generate_structure__init__": "classdict['__init__']", "_generate_union__init__": "classdict['__init__']"}
@@ -347,7 +355,8 @@ def cache_rule(repo: Repo, rep: Report, rid: str) -> None:
     for qn in ("_patch_attributes", "_generate_structure__init__", "_generate_union__init__"):
         fi = repo.func("types/structure.py", qn)
         news = [c for c in walk_body(fi.node.body) if isinstance(c, ast.Call) and isinstance(c.func, ast.Call) and call_name(c.func) == "type"]
-        rep.check(len(news) == 1 and isinstance(news[0].args[0], ast.Call) and call_name(news[0].args[0]) == "replace", rid, f"{fi.key}:new-function",
+        code_arg = resolve_local(fi.node, news[0].args[0]) if len(news) == 1 and news[0].args else None
+        rep.check(len(news) == 1 and isinstance(code_arg, ast.Call) and call_name(code_arg) == "replace", rid, f"{fi.key}:new-function",
                   "returns a new function built from code.replace(...)", f"{qn} does not build a new function from a replaced code object", fi.loc())
     cgn = repo.func("types/structure.py", "_codegen")
     rets = [r for r in walk_body(cgn.node.body) if isinstance(r, ast.Return)]
